@@ -188,7 +188,7 @@ func (h *c07Harness) newMap(spec *c07RestartSpec) error {
 				case c07StOpen:
 					chans = append(chans, c07OpenChan(
 						uint64(c), false, spec.start[c],
-						spec.viaTip[c],
+						spec.viaTip[c], spec.flav[c],
 					))
 				case c07StOpenPending:
 					chans = append(chans, c07OpenChan(
@@ -1047,6 +1047,12 @@ func (h *c07Harness) actRestart(t *rapid.T) error {
 		}
 		spec.start[c] = h.drawStart(t, uint64(c), probe)
 		spec.viaTip[c] = rapid.Bool().Draw(t, "viaTip")
+		if rapid.IntRange(0, 2).Draw(t, "flavoured") == 0 {
+			spec.flav[c] = rapid.IntRange(1, 3).Draw(t, "flavour")
+			h.label("restart_open_flavour=" + [...]string{"",
+				"alias", "zeroconf",
+				"zeroconf_confirmed"}[spec.flav[c]])
+		}
 	}
 	if rapid.IntRange(0, 5).Draw(t, "failRestart") == 0 {
 		spec.failAt = rapid.IntRange(1, 5).Draw(t, "failAt")
